@@ -3,6 +3,9 @@
 import json, os, re
 V = os.path.dirname(os.path.dirname(os.path.abspath(__file__)))
 res = json.load(open(f"{V}/seeded/RESULTS.json"))
+# changes whose declared property the owning check does not see, but which the check of the property they actually break does
+# (verified with tools/mutant_test.sh <patch> <that property>)
+CROSS = {"C02-r4-frame-read-valueerror-dropped": "C01 (continuity:file/dict, stream_cut)", "C13-r5-disc-catches-sendfailed-only": "C12 (incomplete:*)"}
 rows = ["| seeded change | property | verdict (tier) | signatures that fired |", "|---|---|---|---|"]
 for n in sorted(d for d in os.listdir(f"{V}/seeded") if os.path.exists(f"{V}/seeded/{d}/patch.diff")):
     r = res.get(n)
@@ -10,7 +13,8 @@ for n in sorted(d for d in os.listdir(f"{V}/seeded") if os.path.exists(f"{V}/see
         rows.append(f"| {n} | {n[:3]} | not yet swept | |")
         continue
     sigs = ", ".join(f"`{s.split('/', 1)[1]}`" for s in r["signatures"][:3]) + (" ..." if len(r["signatures"]) > 3 else "")
-    rows.append(f"| {n} | {r['property']} | {r['verdict']} ({r['tier']}) | {sigs} |")
+    extra = f"; caught by {CROSS[n]}" if n in CROSS and r["verdict"] != "CAUGHT" else ""
+    rows.append(f"| {n} | {r['property']} | {r['verdict']} ({r['tier']}){extra} | {sigs} |")
 n_c = sum(1 for r in res.values() if r["verdict"] == "CAUGHT")
 table = "\n".join(rows) + f"\n\n{n_c} of {len(res)} swept changes are caught by the quick tier of the owning check.\n"
 p = f"{V}/DESIGN.md"
